@@ -101,17 +101,21 @@ class Grumpy:
     """An item one of whose special methods raises: ["G", what, uid] with what in
     bool | lt | eq | hash | add.  Both the library and the stdlib must let that error through."""
 
-    __slots__ = ("what", "uid", "__weakref__")
+    __slots__ = ("what", "uid", "exc", "__weakref__")
 
-    def __init__(self, what, uid):
-        self.what, self.uid = what, uid
+    ERRORS = {"Grumpy": GrumpyError, "TypeError": TypeError, "ValueError": ValueError,
+              "AttributeError": AttributeError, "KeyError": KeyError}
+
+    def __init__(self, what, uid, exc="Grumpy"):
+        self.what, self.uid, self.exc = what, uid, exc
 
     def __repr__(self):
-        return f"Grumpy({self.what},{self.uid})"
+        return f"Grumpy({self.what},{self.uid},{self.exc})"
 
     def _maybe(self, what):
         if self.what == what:
-            raise GrumpyError(what)
+            # library code that guards its own TypeError / ValueError / AttributeError must not eat these
+            raise self.ERRORS[self.exc](what)
 
     def __bool__(self):
         self._maybe("bool")
@@ -255,7 +259,7 @@ def mat(v):
     if t == "W":
         return AwaitableItem(v[1])
     if t == "G":
-        return Grumpy(v[1], v[2])
+        return Grumpy(v[1], v[2], v[3] if len(v) > 3 else "Grumpy")
     if t == "I":
         return Item(v[1], v[2])
     if t == "A":
@@ -292,7 +296,7 @@ def sig(o):
     if isinstance(o, Item):
         return ("I", o.key, _uid(o.uid))
     if isinstance(o, Grumpy):
-        return ("G", o.what, o.uid)
+        return ("G", o.what, o.uid, o.exc)
     if isinstance(o, AwaitableItem):
         return ("W", _uid(o.uid))
     if isinstance(o, EqAll):
